@@ -130,6 +130,47 @@ inductive KeyTy where
   | str | int
   deriving DecidableEq, Repr
 
+/-- a literal default value -/
+inductive Lit where
+  | none | bool (b : Bool) | int (i : Int) | str (s : Str)
+  deriving DecidableEq, Repr
+
+def Lit.toVal : Lit → Val
+  | .none => .none
+  | .bool b => .bool b
+  | .int i => .int i
+  | .str s => .str s
+
+/-- the body of an output `@property`, over the output names of its declared dependencies -/
+inductive PropExpr where
+  | sumInt (deps : List Str)               -- sum of int fields
+  | concat (deps : List Str)               -- concatenation of str fields
+  deriving DecidableEq, Repr
+
+/-- how a field takes part in input and output (field.py `no_input` / `no_output` / `mode` / `required` /
+`default`, `@property`) -/
+inductive Kind where
+  | input (required : Bool) (default : Option Lit)  -- taken from the input, stored in the instance
+  | noOutput                                        -- taken from the input, never part of the instance's data
+  | noInput (default : Lit)                         -- never taken from the input: the default is stored
+  | prop (e : PropExpr)                             -- output property: recomputed from its dependencies
+  deriving DecidableEq, Repr
+
+/-- a field of a data class as the parser sees it: `name` is the output key (alias / generated alias /
+attribute name), `keys` is `field.all_aliases` before lower-casing (`name` first), `ci` is
+`field.is_case_insensitive(options)` -/
+structure FieldMeta where
+  name : Str
+  keys : List Str
+  ci : Bool
+  kind : Kind
+  deriving DecidableEq, Repr
+
+structure ClassOpts where
+  maxDepth : Option Nat      -- Options(max_depth)
+  dataFirst : Bool           -- the lookup strategy parse_data uses (base.py:391-403)
+  deriving DecidableEq, Repr
+
 inductive Ty where
   | none | bool | int | float | str | bytes | dec | date | datetime | time | delta | uuid
   | enum (decl : EnumDecl)
@@ -138,8 +179,9 @@ inductive Ty where
   | tuple (ts : List Ty)                   -- Tuple[T1, ..., Tn]
   | tupleVar (t : Ty)                      -- Tuple[T, ...]
   | dict (k : KeyTy) (v : Ty)
-  | data (fields : List (Str × Ty))        -- a Schema subclass with plain required fields
+  | data (fields : List (FieldMeta × Ty)) (opts : ClassOpts)   -- a Schema subclass
   | optional (t : Ty)
+  | cut                                    -- where the unrolling of a self-referencing class stops
   deriving Repr
 
 /-! ### CPython builtins that are not utype's business -/
@@ -191,7 +233,7 @@ structure Cfg where
   negOffset : Bool      -- to_datetime detects a negative UTC offset (transform.py:539-544)
   timeTz : Bool         -- from_time keeps the offset of an aware time with milliseconds (encode.py:127-132)
   decTiny : Bool        -- from_decimal writes Decimals below the normal float range as strings (encode.py:147-149)
-  enumValueFirst : Bool -- to_enum prefers a member's value over another member's name (transform.py:656-663)
+  enumValueFirst : Bool -- to_enum converts by value first, member names are a lenient fallback (transform.py:659-677)
   deriving DecidableEq, Repr
 
 /-- the converter preferences a conversion runs under: the defaults, `Options(no_data_loss=True)` and
@@ -530,16 +572,16 @@ def toEnum (cfg : Cfg) (m : Mode) (decl : EnumDecl) (j : Js) : Res Nat :=
   | .int i => if m.noExplicitCast then strictly (.int i) else conv (.int i)
   | .str s =>
     if m.noExplicitCast then strictly (.str s)
-    else if m.noDataLoss then conv (.str s)                  -- names are looked up in the lenient mode only
-    else match byName s with
-    | some n =>
-      if cfg.enumValueFirst then
-        match decl.mixin, byValue (.str s) with
-        | .int, _ => .ok n                                   -- IntEnum('a') raises ValueError → by name
-        | _, some i => .ok i
-        | _, none => .ok n
-      else .ok n                                             -- `data in t.__members__` → by name
-    | none => conv (.str s)
+    else if cfg.enumValueFirst then
+      -- conversion by value first; a member *name* is only a lenient fallback for a str (transform.py:664-677)
+      match conv (.str s) with
+      | .ok i => .ok i
+      | .perr => if m.noDataLoss then .perr else (match byName s with | some n => .ok n | none => .perr)
+      | .unmodelled w => .unmodelled w
+    else if m.noDataLoss then conv (.str s)
+    else match byName s with                                 -- before the repair: `data in t.__members__` first
+      | some n => .ok n
+      | none => conv (.str s)
   | _ => .unmodelled "enum from a non-scalar"
 
 def Js.isContainer : Js → Bool
@@ -658,11 +700,91 @@ def orElse {α : Type} (a : Res α) (b : Unit → Res α) : Res α :=
   | .perr => b ()
   | .unmodelled w => .unmodelled w
 
+/-! ### which field takes which key (base.py:141-152, 291-347, 557-600) -/
+
+/-- `field.all_aliases` after `ParserField.setup`: lower-cased for a case-insensitive field -/
+def FieldMeta.aliases (f : FieldMeta) : List Str := if f.ci then f.keys.map lower else f.keys
+
+/-- `parser.case_insensitive_names` -/
+def ciNames (ms : List FieldMeta) : List Str := ms.flatMap fun f => if f.ci then f.keys.map lower else []
+
+/-- field-first search: the key under which `field_first_parse` files a given key -/
+def normKey (cin : List Str) (k : Str) : Str := if cin.contains (lower k) then lower k else k
+
+/-- field-first search: does field `f` take the given key (`alias in data` for an alias of the field) -/
+def acceptsFF (cin : List Str) (f : FieldMeta) (k : Str) : Bool := f.aliases.contains (normKey cin k)
+
+/-- Python `str.islower` on ASCII: some cased character and no upper-case one -/
+def isLower (s : Str) : Bool := s.any Char.isLower && !s.any Char.isUpper
+
+/-- `fields[key]` / `field_alias_map[key]` without the case fall-back -/
+def getFieldExact (ms : List FieldMeta) (k : Str) : Option FieldMeta :=
+  match ms.find? (fun f => f.name == k) with
+  | some f => some f
+  | none => ms.find? (fun f => (f.aliases.filter (fun a => !(a == f.name))).contains k)
+
+/-- data-first search: `parser.get_field(key)` -/
+def getField (ms : List FieldMeta) (k : Str) : Option FieldMeta :=
+  match getFieldExact ms k with
+  | some f => some f
+  | none => if !isLower k && (ciNames ms).contains (lower k) then getFieldExact ms (lower k) else none
+
+/-- does field `f` take the key `k` under the class's lookup strategy -/
+def takes (ms : List FieldMeta) (dataFirst : Bool) (f : FieldMeta) (k : Str) : Bool :=
+  if dataFirst then (getField ms k).map (·.name) == some f.name else acceptsFF (ciNames ms) f k
+
+inductive Found where
+  | absent
+  | one (j : Js)
+  | several                                 -- the field is given under more than one key (alias conflict rules: not modelled)
+
+def findValue (p : Str → Bool) (kvs : List (Str × Js)) : Found :=
+  match kvs.filter (fun kv => p kv.1) with
+  | [] => .absent
+  | [kv] => .one kv.2
+  | _ => .several
+
+/-- what the declaration must provide for a round trip: every output name is taken by its own field and by
+no other (`f` and `g` range over the fields; output names identify fields) -/
+def keysAccepted (ms : List FieldMeta) (dataFirst : Bool) : Bool :=
+  ms.all fun f => ms.all fun g => takes ms dataFirst f g.name == (f.name == g.name)
+
+def intOf : Val → Option Int
+  | .int i => some i
+  | _ => none
+
+def strOf : Val → Option Str
+  | .str s => some s
+  | _ => none
+
+def sumInts (items : List (Str × Val)) : List Str → Option Int
+  | [] => some 0
+  | d :: ds => match (lookup d items).bind intOf, sumInts items ds with
+    | some a, some b => some (a + b)
+    | _, _ => none
+
+def concatStrs (items : List (Str × Val)) : List Str → Option Str
+  | [] => some []
+  | d :: ds => match (lookup d items).bind strOf, concatStrs items ds with
+    | some a, some b => some (a ++ b)
+    | _, _ => none
+
+/-- the value of an output property on an instance with the given items; `none` when a dependency is missing -/
+def evalProp (items : List (Str × Val)) : PropExpr → Option Val
+  | .sumInt deps => (sumInts items deps).map Val.int
+  | .concat deps => (concatStrs items deps).map Val.str
+
+/-- a context that enters a data class is one level deeper (options.py:352-355); beyond `max_depth` it raises -/
+def tooDeep (o : ClassOpts) (d : Nat) : Bool :=
+  match o.maxDepth with
+  | some n => n != 0 && decide (d > n)
+  | none => false
+
 mutual
 /-- `transformer(value, T)` for a declared field type `T` on a JSON value, under the preferences `m`:
 exact-type shortcut (transform.py:713-715), registry dispatch, `Rule.parse` for generics (rule.py:1682-1749),
 `logical_parse` for `Optional[T]` (rule.py:375-420) -/
-def parse (cfg : Cfg) (P : Prims) (m : Mode) : Ty → Js → Res Val
+def parse (cfg : Cfg) (P : Prims) (m : Mode) (d : Nat) : Ty → Js → Res Val
   | .none, j => toNull m j
   | .bool, j => match j with
     | .bool b => .ok (.bool b)
@@ -702,64 +824,99 @@ def parse (cfg : Cfg) (P : Prims) (m : Mode) : Ty → Js → Res Val
     | _ => .unmodelled "UUID from a non-str"
   | .enum decl, j => do pure (.enum decl (← toEnum cfg m decl j))
   | .list t, j => match j with
-    | .arr xs => do pure (.list (← mapRes (parse cfg P m t) xs))   -- to_array_types: isinstance(data, list)
+    | .arr xs => do pure (.list (← mapRes (parse cfg P m d t) xs))   -- to_array_types: isinstance(data, list)
     | _ => .unmodelled "list from a non-array"
   | .set t, j => match j with
     | .arr xs =>
       -- to_array_types: set(data) on the raw JSON values — unhashable list/dict items raise TypeError
       if xs.any Js.isContainer then .perr
-      else do pure (.set (dedupVals (← mapRes (parse cfg P m t) xs)))   -- origin(value) after the element parse
+      else do pure (.set (dedupVals (← mapRes (parse cfg P m d t) xs)))   -- origin(value) after the element parse
     | _ => .unmodelled "set from a non-array"
   | .tupleVar t, j => match j with
-    | .arr xs => do pure (.tuple (← mapRes (parse cfg P m t) xs))
+    | .arr xs => do pure (.tuple (← mapRes (parse cfg P m d t) xs))
     | _ => .unmodelled "tuple from a non-array"
   | .tuple ts, j => match j with
-    | .arr xs => do pure (.tuple (← parseTuple cfg P m ts xs))
+    | .arr xs => do pure (.tuple (← parseTuple cfg P m d ts xs))
     | _ => .unmodelled "tuple from a non-array"
   | .dict k t, j => match j with
-    | .obj kvs => do pure (.dict (← parseMapWith (parseKey m P k) (parse cfg P m t) kvs))
+    | .obj kvs => do pure (.dict (← parseMapWith (parseKey m P k) (parse cfg P m d t) kvs))
     | _ => .unmodelled "dict from a non-object"
-  | .data fs, j => match j with
-    -- transform_dataclass → init_dataclass: the fields are parsed under the class's own (default) options
-    | .obj kvs => do pure (.data (← parseFields cfg P fs kvs))
+  | .data fs o, j => match j with
+    -- transform_dataclass → init_dataclass: a new context one level deeper, under the class's own (default)
+    -- options; parse_data, then the output properties
+    | .obj kvs =>
+      if tooDeep o (d + 1) then .perr                        -- DepthExceedError
+      else do
+        let items ← parseFields cfg P (d + 1) (fs.map (·.1)) o.dataFirst [] fs kvs
+        pure (.data items)
     | _ => .unmodelled "data class from a non-object"
+  | .cut, _ => .unmodelled "deeper than the unrolled declaration"
   | .optional t, j => match j with
     | .null => .ok .none                                    -- stage 1: type(value) == NoneType
     | _ =>
       -- per stage, the arguments of Union[T, None] in order; a stage runs only when it is stricter than the
       -- current preferences, the last one under the current preferences
       match m with
-      | .strict => orElse (parse cfg P .strict t j) fun _ => toNull .strict j
-      | .noloss => orElse (parse cfg P .strict t j) fun _ => orElse (toNull .strict j) fun _ =>
-          orElse (parse cfg P .noloss t j) fun _ => toNull .noloss j
-      | .lenient => orElse (parse cfg P .strict t j) fun _ => orElse (toNull .strict j) fun _ =>
-          orElse (parse cfg P .noloss t j) fun _ => orElse (toNull .noloss j) fun _ =>
-          orElse (parse cfg P .lenient t j) fun _ => toNull .lenient j
+      | .strict => orElse (parse cfg P .strict d t j) fun _ => toNull .strict j
+      | .noloss => orElse (parse cfg P .strict d t j) fun _ => orElse (toNull .strict j) fun _ =>
+          orElse (parse cfg P .noloss d t j) fun _ => toNull .noloss j
+      | .lenient => orElse (parse cfg P .strict d t j) fun _ => orElse (toNull .strict j) fun _ =>
+          orElse (parse cfg P .noloss d t j) fun _ => orElse (toNull .noloss j) fun _ =>
+          orElse (parse cfg P .lenient d t j) fun _ => toNull .lenient j
 /-- `_parse_tuple_args`, rule.py:1892-1946: missing prefix items are an error; extra items are dropped
 (`addition` is None by default), an error under `no_data_loss` -/
-def parseTuple (cfg : Cfg) (P : Prims) (m : Mode) : List Ty → List Js → Res (List Val)
+def parseTuple (cfg : Cfg) (P : Prims) (m : Mode) (d : Nat) : List Ty → List Js → Res (List Val)
   | [], js => if m.noDataLoss && !js.isEmpty then .perr else .ok []
   | _ :: _, [] => .perr
   | t :: ts, j :: js => do
-    let v ← parse cfg P m t j
-    let vs ← parseTuple cfg P m ts js
+    let v ← parse cfg P m d t j
+    let vs ← parseTuple cfg P m d ts js
     pure (v :: vs)
-/-- `parse_data` for plain required fields: every declared field must be present, unknown keys are dropped -/
-def parseFields (cfg : Cfg) (P : Prims) : List (Str × Ty) → List (Str × Js) → Res (List (Str × Val))
-  | [], _ => .ok []
-  | (name, t) :: fs, kvs =>
-    match lookup name kvs with
-    | none => .perr                                         -- AbsenceError
-    | some j => do
-      let v ← parse cfg P .lenient t j
-      let rest ← parseFields cfg P fs kvs
-      pure ((name, v) :: rest)
+/-- `parse_data` (base.py:367-403, both lookup strategies) field by field: the value the field takes from the
+input, then absence / default / no_input / no_output handling; an output property is computed from the fields
+before it (`acc`, latest first) — its dependencies must be declared before it -/
+def parseFields (cfg : Cfg) (P : Prims) (d : Nat) (ms : List FieldMeta) (dataFirst : Bool) :
+    List (Str × Val) → List (FieldMeta × Ty) → List (Str × Js) → Res (List (Str × Val))
+  | _, [], _ => .ok []
+  | acc, (f, t) :: fs, kvs =>
+    match f.kind with
+    | .prop e =>
+      -- the input is ignored
+      match evalProp acc e with
+      | some v => do
+        let rest ← parseFields cfg P d ms dataFirst ((f.name, v) :: acc) fs kvs
+        pure ((f.name, v) :: rest)
+      | none => .unmodelled "a property whose dependencies are not declared before it"
+    | .noInput dflt => do
+      let rest ← parseFields cfg P d ms dataFirst ((f.name, dflt.toVal) :: acc) fs kvs
+      pure ((f.name, dflt.toVal) :: rest)
+    | .noOutput =>
+      match findValue (takes ms dataFirst f) kvs with
+      | .several => .unmodelled "a field given under several keys"
+      | .absent => parseFields cfg P d ms dataFirst acc fs kvs
+      | .one j => do
+        let _ ← parse cfg P .lenient d t j                    -- parsed, kept as an attribute only
+        parseFields cfg P d ms dataFirst acc fs kvs
+    | .input req dflt =>
+      match findValue (takes ms dataFirst f) kvs with
+      | .several => .unmodelled "a field given under several keys"
+      | .absent =>
+        if req then .perr                                    -- AbsenceError
+        else match dflt with
+          | some v => do
+            let rest ← parseFields cfg P d ms dataFirst ((f.name, v.toVal) :: acc) fs kvs
+            pure ((f.name, v.toVal) :: rest)
+          | none => parseFields cfg P d ms dataFirst acc fs kvs
+      | .one j => do
+        let v ← parse cfg P .lenient d t j
+        let rest ← parseFields cfg P d ms dataFirst ((f.name, v) :: acc) fs kvs
+        pure ((f.name, v) :: rest)
 end
 
 /-- `Cls.__from__(text)`: `to_dict` → `json.loads` (transform.py:347-349), then init -/
-def parseText (cfg : Cfg) (P : Prims) (fs : List (Str × Ty)) (text : Str) : Res Val :=
+def parseText (cfg : Cfg) (P : Prims) (fs : List (FieldMeta × Ty)) (o : ClassOpts) (text : Str) : Res Val :=
   match P.jsonLoads text with
-  | some j => parse cfg P .lenient (.data fs) j
+  | some j => parse cfg P .lenient 0 (.data fs o) j
   | none => .unmodelled "text that is not JSON"
 
 /-! ### the stated domain -/
@@ -819,7 +976,7 @@ def distinctCanon : List Val → Bool
 
 mutual
 /-- `x` is an instance of the declared type `T` with all values in the property's domain -/
-def inDomain (cfg : Cfg) : Ty → Val → Bool
+def inDomain (cfg : Cfg) (d : Nat) : Ty → Val → Bool
   | .none, v => match v with | .none => true | _ => false
   | .bool, v => match v with | .bool _ => true | _ => false
   | .int, v => match v with | .int _ => true | _ => false
@@ -840,35 +997,52 @@ def inDomain (cfg : Cfg) : Ty → Val → Bool
     | .enum decl' i => decl == decl' && decl.wf && decide (i < decl.members.length)
         && (cfg.enumValueFirst || !decl.shadow i)
     | _ => false
-  | .list t, v => match v with | .list xs => xs.all (inDomain cfg t) | _ => false
-  | .set t, v => match v with | .set xs => xs.all (inDomain cfg t) && distinctCanon xs | _ => false
-  | .tupleVar t, v => match v with | .tuple xs => xs.all (inDomain cfg t) | _ => false
-  | .tuple ts, v => match v with | .tuple xs => inDomainTuple cfg ts xs | _ => false
+  | .list t, v => match v with | .list xs => xs.all (inDomain cfg d t) | _ => false
+  | .set t, v => match v with | .set xs => xs.all (inDomain cfg d t) && distinctCanon xs | _ => false
+  | .tupleVar t, v => match v with | .tuple xs => xs.all (inDomain cfg d t) | _ => false
+  | .tuple ts, v => match v with | .tuple xs => inDomainTuple cfg d ts xs | _ => false
   | .dict k t, v => match v with
-    | .dict kvs => kvs.all (fun kv => kv.1.hasTy k && inDomain cfg t kv.2) && distinct (kvs.map (·.1))
+    | .dict kvs => kvs.all (fun kv => kv.1.hasTy k && inDomain cfg d t kv.2) && distinct (kvs.map (·.1))
     | _ => false
-  | .data fs, v => match v with
-    | .data vs => inDomainFields cfg fs vs && distinct (fs.map (·.1))
+  | .data fs o, v => match v with
+    -- within the depth limit; the declaration resolves its own output names; every field as its kind requires
+    | .data vs => !tooDeep o (d + 1) && keysAccepted (fs.map (·.1)) o.dataFirst && distinct (fs.map (·.1.name))
+        && inDomainFields cfg (d + 1) [] fs vs
     | _ => false
+  | .cut, _ => false
   | .optional t, v =>
     -- Optional[T] for a `T` that is not itself nullable
     (match t with | .none | .optional _ => false | _ => true)
-      && ((match v with | .none => true | _ => false) || inDomain cfg t v)
-def inDomainTuple (cfg : Cfg) : List Ty → List Val → Bool
+      && ((match v with | .none => true | _ => false) || inDomain cfg d t v)
+def inDomainTuple (cfg : Cfg) (d : Nat) : List Ty → List Val → Bool
   | [], xs => xs.isEmpty
   | t :: ts, xs => match xs with
-    | x :: xs => inDomain cfg t x && inDomainTuple cfg ts xs
+    | x :: xs => inDomain cfg d t x && inDomainTuple cfg d ts xs
     | [] => false
-def inDomainFields (cfg : Cfg) : List (Str × Ty) → List (Str × Val) → Bool
-  | [], vs => vs.isEmpty
-  | (n, t) :: fs, vs => match vs with
-    | (n', x) :: vs => n == n' && inDomain cfg t x && inDomainFields cfg fs vs
-    | [] => false
+/-- the items of an instance against the declared fields, in field order (`acc`: the items so far, latest first) -/
+def inDomainFields (cfg : Cfg) (d : Nat) : List (Str × Val) → List (FieldMeta × Ty) → List (Str × Val) → Bool
+  | _, [], vs => vs.isEmpty
+  | acc, (f, t) :: fs, vs =>
+    match f.kind with
+    | .noOutput => inDomainFields cfg d acc fs vs
+    | .noInput dflt => match vs with
+      | (n, x) :: vs' => n == f.name && x.beq dflt.toVal && inDomainFields cfg d ((n, x) :: acc) fs vs'
+      | [] => false
+    | .prop e => match vs with
+      -- the stored value is what the property computes from the current values of its dependencies
+      | (n, x) :: vs' => n == f.name && (match evalProp acc e with | some v => x.beq v | none => false)
+          && inDomainFields cfg d ((n, x) :: acc) fs vs'
+      | [] => false
+    | .input req dflt => match vs with
+      | (n, x) :: vs' =>
+        if n == f.name then inDomain cfg d t x && inDomainFields cfg d ((n, x) :: acc) fs vs'
+        else !req && dflt.isNone && inDomainFields cfg d acc fs vs      -- an optional field that was not given
+      | [] => !req && dflt.isNone && inDomainFields cfg d acc fs []
 end
 
 /-- values of this type are written as a JSON array / object -/
 def Ty.arrivesAsContainer : Ty → Bool
-  | .list _ | .set _ | .tuple _ | .tupleVar _ | .dict _ _ | .data _ => true
+  | .list _ | .set _ | .tuple _ | .tupleVar _ | .dict _ _ | .data _ _ => true
   | .optional t => t.arrivesAsContainer
   | _ => false
 
@@ -881,13 +1055,13 @@ def Ty.setOfContainers : Ty → Bool
   | .tupleVar t => t.setOfContainers
   | .tuple ts => setOfContainersList ts
   | .dict _ t => t.setOfContainers
-  | .data fs => setOfContainersFields fs
+  | .data fs _ => setOfContainersFields fs
   | .optional t => t.setOfContainers
   | _ => false
 def setOfContainersList : List Ty → Bool
   | [] => false
   | t :: ts => t.setOfContainers || setOfContainersList ts
-def setOfContainersFields : List (Str × Ty) → Bool
+def setOfContainersFields : List (FieldMeta × Ty) → Bool
   | [] => false
   | (_, t) :: fs => t.setOfContainers || setOfContainersFields fs
 end
